@@ -94,3 +94,11 @@ Print Assumptions C08_text_roundtrip.
 Example C08_text_roundtrip_applies :
   msg_wf sample_call /\ msg_depth_ok 1497 sample_call.
 Proof. exact sample_wf. Qed.
+
+(* the rounding step of the binary64 conversion inside the json.loads model: nearest, ties to even *)
+From OV.Model Require Import FloatProofs.
+Theorem C08_float_rounding :
+  forall n d, (0 < d)%Z ->
+    (Z.abs (2 * n - 2 * round_half_even n d * d) <= d)%Z /\ (n / d <= round_half_even n d <= n / d + 1)%Z.
+Proof. exact round_half_even_near. Qed.
+Print Assumptions C08_float_rounding.
